@@ -553,7 +553,18 @@ func (c *w2cfg) genQuery(client, seq int, id uint16) *w2query {
 		wq.HasOpt = true
 	}
 	if simrt.Choose(100) < c.pMalformed {
-		switch simrt.Choose(4) {
+		switch simrt.Choose(5) {
+		case 4:
+			// two OPT pseudo-records (RFC 6891 allows one): the first carries options
+			o1 := new(dns.OPT)
+			o1.Hdr.Name, o1.Hdr.Rrtype = ".", dns.TypeOPT
+			o1.SetUDPSize(4096)
+			o1.Option = append(o1.Option, &dns.EDNS0_COOKIE{Code: dns.EDNS0COOKIE, Cookie: "aabbccddeeff0011"}, &dns.EDNS0_LOCAL{Code: 65001, Data: []byte{7}})
+			o2 := new(dns.OPT)
+			o2.Hdr.Name, o2.Hdr.Rrtype = ".", dns.TypeOPT
+			o2.SetUDPSize(1232)
+			q.Extra = []dns.RR{o1, o2}
+			wq.Malformed = "two OPT records"
 		case 0:
 			q.Response = true
 			wq.Malformed = "QR=1"
